@@ -545,6 +545,15 @@ theorem ackInv_restartLate {n : Nat} (_h : AckInv s) (hs : doRestartLate s n = s
 theorem ackInv_replayLate {n : Nat} (_h : AckInv s) (hs : doReplayLate s n = some s') : AckInv s' := by
   simp [doReplayLate, commitLoopAfterReplay] at hs
 
+theorem ackInv_coordWrite {c : Cmd} {size : Nat} (h : AckInv s) (hs : doCoordWrite s c size = some s') : AckInv s' := by
+  unfold doCoordWrite at hs
+  split at hs
+  · split at hs
+    · rename_i s1 hp
+      cases hs; exact ackInv_propose h hp
+    · cases hs; exact h
+  · cases hs; exact h
+
 /-- the invariant holds after every step -/
 theorem ackInv_step {o : Op} (h : AckInv s) (hs : step s o = some s') : AckInv s' := by
   cases o <;> simp only [step] at hs
@@ -567,6 +576,7 @@ theorem ackInv_step {o : Op} (h : AckInv s) (hs : step s o = some s') : AckInv s
   · exact ackInv_metaUp h hs
   · exact ackInv_elect h hs
   · exact ackInv_setMaster h hs
+  · exact ackInv_coordWrite h hs
 
 theorem ackInv_run {os : List Op} (h : AckInv s) (hs : run s os = some s') : AckInv s' := by
   induction os generalizing s with
